@@ -265,6 +265,23 @@ func init() {
 				e.addParseCase("deep", in)
 			}
 		}
+		// far beyond the depths of the corpus above (a depth limit, if there is one, must end in an error)
+		for _, depth := range []int{300, 1100, 2500} {
+			rep := func(open, close string) string { return strings.Repeat(open, depth) + "x" + strings.Repeat(close, depth) }
+			for _, in := range []string{"<%= " + rep("(", ")") + " %>", "<%= " + strings.Repeat("(", depth), "<%= " + rep("[", "]") + " %>", "<%= " + rep("!", "") + " %>",
+				rep("<%= if (c) { %>", "<% } %>"), "<%= " + rep("f(", ")") + " %>", "<%= " + rep("{k: ", "}") + " %>"} {
+				o := parseImpl(in)
+				e.rep.Evaluations++
+				e.Count("parse-verydeep-" + o.Class)
+				rp := map[string]interface{}{"input_len": len(in), "depth": depth, "observed_class": o.Class}
+				switch o.Class {
+				case "PANIC":
+					e.Violate("parse-panic", fmt.Sprintf("Parse panicked on %q nested %d deep: %s", in[:12], depth, firstLine(o.Msg)), rp)
+				case "HANG":
+					e.Violate("parse-hang", fmt.Sprintf("Parse did not return within 3s on %q nested %d deep", in[:12], depth), rp)
+				}
+			}
+		}
 		for _, in := range []string{"<%# abc", "<% break( %>", "<% for (x) in ) { %>", "<%= {a: ) } %>", "<%= xs[)] %>", "<% break[1] %>", "<%= [1, )] %>", "a\\<", "\\<", "<%= {let: 1} %>", "<% if (true) { } else if (let) { } %>"} {
 			e.addParseCase("corpus", in)
 		}
